@@ -22,6 +22,7 @@ pub mod c17;
 pub mod c18;
 pub mod c19;
 pub mod e2e_paths;
+pub mod wellknown;
 
 /// Checks whose whole exploration is repeated under the second ambient configuration (see `env::set_ambient_b`).
 const TWICE: [&str; 14] = ["C01", "C02", "C03", "C04", "C05", "C06", "C09", "C10", "C11", "C12", "C13", "C14", "C16", "C19"];
